@@ -17,7 +17,7 @@ def check_config(conv, model, Q, fails, where, ctx):
     d = model.delimiter
     if ctx is not None:
         ctx.count("prefix_free_configs" if pf else "nested_configs")
-    prefixes = list(dict.fromkeys(joint.PREFIX_QUERIES + sorted(model.all_prefixes())))
+    prefixes = list(dict.fromkeys(joint.prefix_queries() + sorted(model.all_prefixes())))
     nsyn = 0
     for p in prefixes:
         sp = conv.standardize_prefix(p)
